@@ -7,12 +7,15 @@ Boundary (stub): `GitVcs::run_git_command` — each git sub-command answers from
 (the contract of that sub-command as documented by git), `check_shallow_clone` answers false.
 
 Symbolic repository summary
-  h0..h(k-1)   the commits `git rev-list --topo-order HEAD` prints (git's contract: no parent before all of its children)
+  c0..c(k-1)   the ancestors-or-self of HEAD (c0), with a concrete parent relation per case (chains, a diamond, a merged
+               longer side branch) and a *symbolic listing order* pos[]: whatever order the issued rev-list flavour may
+               print by git's contract (--topo-order / --date-order: no parent before all of its children; plain
+               rev-list: by date, i.e. only "every commit after at least one of its children")
   u            one tagged commit that is *not* reachable from HEAD
   loc[t]       for every tag name t of the menu: absent (-1), on h_i (i), or on u (k)   -- solver variables
   D            what `rev-list --count <tag>..HEAD` prints, ts_i / cts commit times, branch text, status text
-The oracle is the statement: base tag = a highest-version valid tag of the first commit of that order carrying a valid
-tag (tags on u never count); none -> reported as "no tags"; every other fact is passed through exactly.
+The oracle is the statement: base tag = a highest-version valid tag of a validly tagged commit with no other validly
+tagged commit between it and HEAD (tags on u never count); none -> reported as "no tags"; every other fact is passed through exactly.
 Validity and version order of the (concrete) tag names come from my own patterns / comparators (flowlib)."""
 import os
 import sys
@@ -29,6 +32,30 @@ import c04
 VCS_FIELDS = ['tag_version', 'tag_commit_hash', 'tag_timestamp', 'commit_hash', 'commit_hash_prefix', 'commit_timestamp',
               'current_branch', 'is_dirty', 'distance']
 WORLD = [None]          # the repository summary of the path being executed (set by path(), read by the stub)
+
+
+SHAPES = {
+    'lin1': {0: []}, 'lin2': {0: [1], 1: []}, 'lin3': {0: [1], 1: [2], 2: []}, 'lin4': {0: [1], 1: [2], 2: [3], 3: []},
+    'lin5': {0: [1], 1: [2], 2: [3], 3: [4], 4: []},
+    'diamond': {0: [1, 2], 1: [3], 2: [3], 3: []},                      # c0 merges c1 and c2, both children of c3
+    'longside': {0: [1, 2], 1: [4], 2: [3], 3: [4], 4: []},             # c0 merges main (c1) and a two-commit side branch (c2 <- c3) forked at c4
+}
+
+
+def descendants(par):
+    """strict descendants of every commit within the summary"""
+    anc = {}
+
+    def up(i):
+        if i not in anc:
+            a = set()
+            for p in par[i]:
+                a |= {p} | up(p)
+            anc[i] = a
+        return anc[i]
+    for i in par:
+        up(i)
+    return {i: {j for j in par if i in anc[j]} for i in par}
 
 
 def hash_of(i):
@@ -50,9 +77,19 @@ class GitWorld:
     def __init__(self, ctx, arg):
         w = ctx.w
         self.w, self.arg = w, arg
-        self.k = arg['commits']
+        self.shape = arg.get('shape') or 'lin%d' % arg['commits']
+        self.par = SHAPES[self.shape]
+        self.k = len(self.par)
+        self.desc = descendants(self.par)
+        self.pos = [w.fresh_int('pos%d' % i, 0, self.k - 1) for i in range(self.k)]
+        w.assume(self.pos[0] == 0)
+        if self.k > 1:
+            w.assume(z3.Distinct(*self.pos))
+        self.order = None
         self.tags = list(arg['tags'])
         self.loc = {t: w.fresh_int('loc%d' % i, -1, self.k) for i, t in enumerate(self.tags)}
+        # annotated tags are objects of their own: commands that do not peel the ref see the tag object, not the commit
+        self.annotated = {t: w.fresh_bool('ann%d' % i) for i, t in enumerate(self.tags)}
         self.hashes = [hash_of(i) for i in range(self.k)]
         self.unreach = hash_of(self.k)
         self.dist = w.fresh_int('D', 0, arg.get('dist_max', 99))
@@ -75,8 +112,17 @@ class GitWorld:
         from models_fmt import int_to_chars
         w = self.w
         self.log.append(argv)
-        if argv == ['rev-list', '--topo-order', 'HEAD']:
-            return txt('\n'.join(self.hashes))
+        if argv in (['rev-list', '--topo-order', 'HEAD'], ['rev-list', '--date-order', 'HEAD']):
+            # contract: no parent is shown before all of its children
+            for c, ps in self.par.items():
+                for p in ps:
+                    w.assume(self.pos[c] < self.pos[p])
+            return txt('\n'.join(self.hashes[i] for i in self.listing()))
+        if argv == ['rev-list', 'HEAD'] or argv == ['log', '--format=%H', 'HEAD'] or argv == ['log', '--format=%H']:
+            # contract of the default (date) order: a commit is listed only after at least one of its children
+            for i in range(1, self.k):
+                w.assume(z3.Or([self.pos[c] < self.pos[i] for c in self.par if i in self.par[c]]))
+            return txt('\n'.join(self.hashes[i] for i in self.listing()))
         if argv == ['log', '--tags', '--no-walk', '--format=%H']:
             # every commit some tag points at, reachable or not; git orders them by date -- here: u first, then oldest first
             out = []
@@ -98,6 +144,24 @@ class GitWorld:
             return int_to_chars(I, self.dist)
         if argv == ['rev-parse', 'HEAD']:
             return txt(self.hashes[0])
+        if argv[0] == 'rev-parse' and len(argv) in (2, 3) and (len(argv) == 2 or argv[1] in ('--verify', '-q', '--quiet')):
+            ref = argv[-1]
+            peel_it = False
+            for suf in ('^{commit}', '^{}', '^0', '~0'):
+                if ref.endswith(suf):
+                    ref, peel_it = ref[:-len(suf)], True
+            if ref.startswith('refs/tags/'):
+                ref = ref[len('refs/tags/'):]
+            i = self.where(ref)
+            if i is None:
+                return None
+            if not peel_it and w.branch(self.annotated[ref]):
+                return txt(hash_of(100 + self.tags.index(ref)))          # the tag object, not a commit
+            return txt(self.unreach if i == self.k else self.hashes[i])
+        if argv in (['tag', '--merged', 'HEAD'], ['tag', '--merged'], ['tag', '-l', '--merged', 'HEAD']):
+            return txt('\n'.join(t for t in sorted(self.tags) if any(w.branch(self.loc[t] == i) for i in range(self.k))))
+        if argv in (['tag'], ['tag', '-l'], ['tag', '--list']):
+            return txt('\n'.join(t for t in sorted(self.tags) if not w.branch(self.loc[t] == -1)))
         if argv == ['branch', '--show-current']:
             return list(self.branch) if self.branch is not None else []
         if argv == ['log', '-1', '--format=%ct']:
@@ -112,6 +176,20 @@ class GitWorld:
             i = self.where(argv[3])
             return None if i is None else txt(self.unreach if i == self.k else self.hashes[i])
         raise Unsupported('git sub-command without a stub: %r' % (argv,))
+
+    def listing(self):
+        """the concrete listing order of this path (forks over the orders the contract allows)"""
+        if self.order is None:
+            order = []
+            for j in range(self.k):
+                for i in range(self.k):
+                    if i not in order and self.w.branch(self.pos[i] == j):
+                        order.append(i)
+                        break
+                else:
+                    raise Infeasible()
+            self.order = order
+        return self.order
 
     def where(self, t):
         """concrete location of tag t on this path (forks until decided); None when absent / unknown name"""
@@ -128,7 +206,7 @@ class GitWorld:
     def concrete(self, m):
         def ev(x):
             return x if isinstance(x, int) else m.eval(x, model_completion=True).as_long()
-        return dict(commits=self.k, tags={t: ev(self.loc[t]) for t in self.tags}, distance=ev(self.dist), commit_ts=ev(self.cts),
+        return dict(commits=self.k, shape=self.shape, order=sorted(range(self.k), key=lambda i: ev(self.pos[i])), tags={t: ev(self.loc[t]) for t in self.tags}, annotated=[t for t in self.tags if z3.is_true(m.eval(self.annotated[t], model_completion=True))], distance=ev(self.dist), commit_ts=ev(self.cts),
                     ts=[ev(x) for x in self.ts], branch=None if self.branch is None else ''.join(chr(ev(c)) for c in self.branch),
                     status=''.join(chr(ev(c)) for c in self.status))
 
@@ -176,7 +254,8 @@ def allowed_formula(wd, fmt, R):
         if not valid(f, R):
             continue
         for i in range(k):
-            first = z3.And([z3.Not(has_valid(j)) for j in range(i)] + [loc[R] == i])
+            # nearest: no validly tagged commit strictly between c_i and HEAD (= among the descendants of c_i)
+            first = z3.And([z3.Not(has_valid(j)) for j in sorted(wd.desc[i])] + [loc[R] == i])
             maximal = z3.And([z3.Implies(loc[t] == i, z3.BoolVal(le(f, t, R))) for t in tags if valid(f, t)] or [z3.BoolVal(True)])
             alts.append(z3.And(first, maximal))
     return z3.Or(alts or [z3.BoolVal(False)])
@@ -362,6 +441,13 @@ def cases(tier):
         tags, fmts = MENUS[name]
         for fmt in fmts[:1] if q else fmts:
             out.append(dict(name=name, fmt=fmt, commits=3 if q else 5, tags=tags, branch=list('dv'), status_len=1))
+    # merges: the listing order is whatever the rev-list flavour zerv uses may print
+    for name in (('semver_order', 'mixed') if q else MENUS):
+        tags, fmts = MENUS[name]
+        for fmt in (fmts[:1] if q else fmts):
+            out.append(dict(name=name, fmt=fmt, shape='diamond', commits=4, tags=tags if not q else tags[:3], branch=list('main'), status_len=0))
+            if not q or name == 'semver_order':
+                out.append(dict(name=name, fmt=fmt, shape='longside', commits=5, tags=tags[:3], branch=list('main'), status_len=0))
     if not q:
         out.append(dict(name='five_tags', fmt='semver', commits=2, tags=['v1.0.0', 'v1.0.1', 'v1.0.1-rc.1', '1.0.1', 'stable'], branch=None, status_len=0))
         out.append(dict(name='five_tags', fmt='auto', commits=2, tags=['v1.0.0', '1.0.0.post1', '1.0.1a1', 'v1.0.1-alpha.1', 'v1'], branch=None, status_len=0))
